@@ -834,10 +834,13 @@ spif_ustr_trim(spif_ustr_t self)
     spif_charptr_t start, end;
 
     ASSERT_RVAL(!SPIF_USTR_ISNULL(self), FALSE);
+    if (self->s == (spif_charptr_t) NULL) {
+        return TRUE;
+    }
     start = self->s;
     end = self->s + self->len - 1;
-    for (; isspace((spif_uchar_t) (*start)) && (start < end); start++);
-    for (; isspace((spif_uchar_t) (*end)) && (start < end); end--);
+    for (; (start <= end) && isspace((spif_uchar_t) (*start)); start++);
+    for (; (start < end) && isspace((spif_uchar_t) (*end)); end--);
     if (start > end) {
         return spif_ustr_done(self);
     }
